@@ -213,7 +213,11 @@ pub fn run(ctx: &Ctx) -> i32 {
         }
     }
     let total = items.len() as u64;
-    let (done, complete) = par_for_budget(ctx, total, 32, |idx| {
+    let describe = |idx: u64| {
+        let (ci, mask) = items[idx as usize];
+        json!({"hang": true, "content_hex": hex(&contents[ci as usize]), "chunks": cut_from_mask(contents[ci as usize].len(), mask), "note": "one of the capacity / stutter variants of this schedule did not return"})
+    };
+    let (done, complete) = par_for_watch(ctx, total, 32, &describe, |idx| {
         let (ci, mask) = items[idx as usize];
         let content = &contents[ci as usize];
         let chunks = cut_from_mask(content.len(), mask);
